@@ -861,6 +861,38 @@ def missing_index_is_an_error(k, is_async):
     return out
 
 
+# ------------------------------------------------------------------------------ C15 / C01: v += w in a describing function
+def augmented_assignment_is_pure(k, is_async):
+    """`v = start; v += more(x)` in a DAG body, `start` being a defaulted parameter holding a list (and a stored setup result):
+    as in the plain function called with a FRESH default each time, every call returns start + more(x); what the DAG keeps
+    between calls (defaults, setup results) is not modified"""
+    def more(x):
+        return [x]
+    mx = tawazi.xn(named(more, "sc_aam%d" % k))
+
+    def base():
+        return ["<b>"]
+    bx = tawazi.xn(named(base, "sc_aab%d" % k), setup=True)
+
+    def desc(x, start=["<s>"]):  # noqa: B006
+        v = start
+        v += mx(x)
+        w = bx()
+        w += mx(x)
+        return v, w
+    d = tawazi.dag(named(desc, "sc_aa%d" % k), is_async=is_async)
+    call = (lambda th: in_thread(lambda: asyncio.run(th()), 10)) if is_async else (lambda th: in_thread(th, 10))
+    out = []
+    for x in ("x", "y", "z"):
+        st = call(lambda x=x: d(x))
+        if st[0] != "ok":
+            return ["`v += w` in a describing function: %r" % (st,)]
+        if st[1] != (["<s>", x], ["<b>", x]):
+            out.append("call %r of a DAG doing `v = start; v += more(x)` returned %r; with the default and the setup result untouched it returns (['<s>', %r], ['<b>', %r])" % (x, st[1], x, x))
+            break
+    return out
+
+
 def run(pid, tier, seed, res):
     n = 2 if tier == "quick" else 8
     for k in range(n):
@@ -887,6 +919,11 @@ def run(pid, tier, seed, res):
                 res.hit("C16", "monitor", msg, dict(engine="scenario", kind="monitor", scenario="concurrent_builds_stress", k=k))
             for msg in concurrent_calls_stress(k, 2.5 if tier == "quick" else 15.0):
                 res.hit("C16", "monitor", msg, dict(engine="scenario", kind="monitor", scenario="concurrent_calls_stress", k=k))
+        if pid in ("C15", "C01"):
+            for fl in (False, True):
+                res.evaluations += 1
+                for msg in augmented_assignment_is_pure(2 * k + int(fl), fl):
+                    res.hit(pid, "monitor", msg, dict(engine="scenario", kind="monitor", scenario="augmented_assignment_is_pure", k=k, is_async=fl))
         if pid in ("C02", "C10"):
             for fl in (False, True):
                 res.evaluations += 1
